@@ -29,8 +29,10 @@ Step == /\ stack # <<>>
         /\ steps' = steps + 1 /\ UNCHANGED dag
 Spec == Init /\ [][Step]_vars /\ WF_vars(Step)
 
-RECURSIVE Reach(_)
-Reach(c) == {c} \cup UNION {Reach(dag[c][j]) : j \in 1..Len(dag[c])}
+\* reachable cells as a fixpoint (a recursive unfolding would itself be exponential on the double chains)
+RECURSIVE Close(_)
+Close(S) == LET S2 == S \cup UNION {{dag[c][j] : j \in 1..Len(dag[c])} : c \in S} IN IF S2 = S THEN S ELSE Close(S2)
+Reach(c) == Close({c})
 N == Cardinality(Reach(Root))
 E == LET S == Reach(Root) IN
      LET RECURSIVE Sum(_) Sum(T) == IF T = {} THEN 0 ELSE LET x == CHOOSE y \in T : TRUE IN Len(dag[x]) + Sum(T \ {x}) IN Sum(S)
